@@ -285,6 +285,11 @@ func buildRoutes(ca *lib.CA) []*route {
 		withLimits := func(c *forwarder.HTTPProxyConfig) {
 			c.ReadHeaderTimeout = 400 * time.Millisecond
 			c.IdleTimeout = 800 * time.Millisecond
+			if len(name)%3 == 0 {
+				// a third of the routes listen with a (very high) read limit: their client connections
+				// go through the limiter's wrapper and tunnels are copied through the proxy's own buffers
+				c.ReadLimit = 1 << 30
+			}
 			if len(name)%2 == 0 || name == "upgrade" {
 				// half of the routes log exchanges in body mode: the logging layer then handles
 				// the bodies of every message, and a 2xx CONNECT has none to handle
